@@ -82,7 +82,7 @@ def judge(case, reals, gens, specs):
     return out
 
 
-def known_match(case, idx, reals, specs, listed):
+def known_match(case, idx, reals, specs, listed, detail=""):
     """F-C01-1: kappa > 1 solely because the documented family lacks the true maximiser"""
     f = next((x for x in listed if x["id"] == "F-C01-1"), None)
     if f is None or idx != 0:
